@@ -759,6 +759,26 @@ pub fn exec_line(line: &str) -> String {
                 Err(m) => format!("panic:{}", m.chars().take(60).collect::<String>()),
             }
         }
+        ["tid", "merge", pre, items] => {
+            // a store that holds `pre` annotations (with public identifiers); a document with one annotation per item merged into it
+            let pre: usize = pre.parse().unwrap_or(0);
+            let anns: Vec<String> = if *items == "_" { vec![] } else { items.split(',').map(|it| {
+                let id = if it == "-" { String::new() } else { format!("\"@id\": \"!A{}\", ", it) };
+                format!("{{\"@type\": \"Annotation\", {}\"target\": {{\"@type\": \"ResourceSelector\", \"resource\": \"r\"}}, \"data\": []}}", id)
+            }).collect() };
+            let doc = format!("{{\"@type\": \"AnnotationStore\", \"annotations\": [{}]}}", anns.join(", "));
+            let r = guarded(std::panic::AssertUnwindSafe(|| -> Result<String, StamError> {
+                let mut store = AnnotationStore::default().with_resource(TextResourceBuilder::new().with_id("r").with_text("hello"))?;
+                for k in 0..pre { store.annotate(AnnotationBuilder::new().with_id(format!("P{}", k)).with_target(SelectorBuilder::resourceselector("r")))?; }
+                store.merge_json_str(&doc)?;
+                // what was there is still there, under its identifier
+                for k in 0..pre { if store.annotation(format!("P{}", k).as_str()).map(|a| a.handle().as_usize()) != Some(k) { return Ok(format!("lost P{}", k)); } }
+                let (a, _, _) = store.verif_dump_slots();
+                let live: Vec<String> = a.iter().enumerate().filter(|(_, l)| **l).map(|(i, _)| i.to_string()).collect();
+                Ok(format!("ok {}", if live.is_empty() { "-".to_string() } else { live.join(",") }))
+            }));
+            match r { Ok(Ok(s)) => s, Ok(Err(_)) => "err".into(), Err(m) => format!("panic:{}", m.chars().take(60).collect::<String>()) }
+        }
         _ => "bad-op".into(),
     }
 }
@@ -780,6 +800,26 @@ pub fn tempid_stream(rep: &mut Report, rng: &mut Rng, n: usize) {
         if i % 50 == 0 { rep.sample(json!({"line": line, "implementation": a})); }
         rep.case(Some(&line));
         rep.model_case(vec![line], vec![a], "temp-id-load");
+    }
+    // the same documents merged into a store that holds annotations already
+    for i in 0..n {
+        let pre = 1 + rng.below(4);
+        let k = 1 + rng.below(5);
+        let mut next = 0usize;
+        let items: Vec<String> = (0..k).map(|_| match rng.below(10) {
+            0..=2 => { next += 1; "-".to_string() }
+            3..=6 => { next += rng.below(3); let h = next; next += 1; h.to_string() }                  // what a store writes: increasing from 0, with gaps
+            7 => { let h = next.saturating_sub(1 + rng.below(3)); h.to_string() }
+            8 => { next += pre + rng.below(6); let h = next; next += 1; h.to_string() }                  // beyond what is there
+            _ => { next += 1000 + rng.below(1000); let h = next; next += 1; h.to_string() }
+        }).collect();
+        let line = format!("tid merge {} {}", pre, items.join(","));
+        let a = exec_line(&line);
+        rep.count(&format!("tid:merge:{}", a.split(' ').next().unwrap_or("?")));
+        if i % 50 == 0 { rep.sample(json!({"line": line, "implementation": a})); }
+        rep.case(Some(&line));
+        if a.starts_with("lost") { rep.fail("oracle", "C19/json/merge/annotation-that-was-there-is-gone", vec![line.clone()], "what was in the store stays", &a); }
+        rep.model_case(vec![line], vec![a], "temp-id-merge");
     }
     for s in ["!A0", "!A42", "!D7", "!A", "!", "A1", "!a1", "!A-1", "!A+5", "!A 1", "!A1x", "!\u{c9}3", "!\u{e9}3", "!AA", "!A007", "", "!!1", "!Z99999"] {
         let line = format!("tid resolve {}", hex(s));
